@@ -5,7 +5,7 @@
 
 use crate::gen::{BinderKind, ProgramAst, RMod, Role};
 use crate::lsp_sim::{Exec, ReqKind};
-use crate::pipeline::{canonicalise_hash_names, compile_to_yaml};
+use crate::pipeline::compile_to_yaml;
 use crate::position::{self, Pos};
 use serde::{Deserialize, Serialize};
 use serde_json::Value;
@@ -444,7 +444,10 @@ pub fn check_c17(ex: &mut Exec, at: usize, t: &SemTarget) {
                     }
                 }
                 // inverse law: every reference returned goes back to the binder
-                for (rp, rs, _re) in got.iter() {
+                // (at most 12 of them per request, spread evenly: a declaration used hundreds of
+                // times would otherwise cost a quadratic number of requests)
+                let step = (got.len() / 12).max(1);
+                for (rp, rs, _re) in got.iter().step_by(step) {
                     let d = ex.peer.send_request(ReqKind::Definition, rp, *rs, None).unwrap_or(Value::Null);
                     ex.stats.count("requests_checked", 1);
                     ex.stats.oracle_checks += 1;
@@ -526,10 +529,19 @@ pub fn check_c18(ex: &mut Exec, at: usize, t: &SemTarget) {
     let mut k = 0usize;
     let paths: Vec<String> = t.occs.keys().cloned().collect();
     let mut positions: Vec<(String, Pos, Option<SOcc>)> = Vec::new();
+    let mut per_binder: BTreeMap<usize, usize> = BTreeMap::new();
     for path in paths.iter() {
         let text = &t.files[path];
         for o in t.occs[path].iter() {
             k += 1;
+            // of the hundreds of uses of one declaration only the first eight are renamed from
+            if let Some(b) = o.binder {
+                let n = per_binder.entry(b).or_default();
+                *n += 1;
+                if *n > 8 {
+                    continue;
+                }
+            }
             positions.push((path.clone(), pos_in(text, o.start, o.end, k), Some(o.clone())));
         }
     }
@@ -676,7 +688,9 @@ pub fn check_c18(ex: &mut Exec, at: usize, t: &SemTarget) {
             }
             Ok(y2) => {
                 let y2 = if old.starts_with('@') { y2.replace(&new_name[1..], &old[1..]) } else { y2 };
-                if canonicalise_hash_names(&y2) != canonicalise_hash_names(&before) {
+                // byte for byte: both compilations happen at the same location, so even the
+                // implicit hash-* component names have to stay what they were
+                if y2 != before {
                     ex.fail_pub(
                         at,
                         "renamed-program-differs",
